@@ -153,7 +153,7 @@ func c04Node(rng *rand.Rand, depth int) *C04Node {
 func init() {
 	core.Register(&core.Prop{
 		ID: "C04",
-		Rule: "(a) random acyclic object graphs of a recursive family of named types (depth 0-5; every container form: *T, **T, []T, []*T, [2]T, [2]*T, map[string]T, map[int]*T; each node independently nil / zero / populated; nil elements; decoy sub-objects on unmarked, unexported and time.Time fields that would fail if visited) through T, *T, **T, []T, []*T, [n]T, map[string]T and map[int]*T top-level inputs; " +
+		Rule: "(a) random acyclic object graphs of a recursive family of named types (depth 0-4 quick, 0-5 thorough; embedded structs marked and unmarked; every container form: *T, **T, []T, []*T, [2]T, [2]*T, map[string]T, map[int]*T; each node independently nil / zero / populated; nil elements; decoy sub-objects on unmarked, unexported and time.Time fields that would fail if visited) through T, *T, **T, []T, []*T, [n]T, map[string]T and map[int]*T top-level inputs; " +
 			"(b) struct types synthesised with reflect.StructOf, nesting depth <= 4, struct-valued fields independently tagged required / exist / both / neither. The (path, rule-instance) pairs of the returned error must equal the reference validator's recursive descent. distinct = distinct (type, value) rendering; non-trivial = at least one clause expected below the top level or a decoy present",
 		Shards: func(t core.Tier) int { return 16 },
 		Run:    runC04,
@@ -176,7 +176,7 @@ func runC04(c *core.Ctx) {
 	rng := c.Rng("graphs")
 	N := c.Pick(1200, 30000)
 	for i := 0; i < N; i++ {
-		depth := rng.Intn(6)
+		depth := rng.Intn(c.Pick(5, 6))
 		mk := func() *C04Node { return c04Node(rng, depth) }
 		var in interface{}
 		top := ""
